@@ -36,7 +36,7 @@ meta_out = {
     },
     "verif_checks_with_change": verdicts,
     "violation_lines": re.findall(r"^(VIOLATION .*)$", log, re.M)[:4],
-    "detected": any("VIOLATED" in v for v in verdicts),
+    "detected": any("VIOLATED" in v for v in verdicts) or bool(re.findall(r"^VIOLATION ", log, re.M)),
 }
 json.dump(meta_out, open(dst + "/meta.json", "w"), indent=1)
 print(name, "detected" if meta_out["detected"] else "MISSED", verdicts)
